@@ -54,6 +54,25 @@ pub struct FontEntry {
     pub fv: Option<FvFont>,
     pub weight: u32,
     pub kind: &'static str,
+    /// characters to spell texts from (generated fonts with their own glyph universe)
+    pub alphabet: Vec<char>,
+    /// further texts (witness strings of the generators)
+    pub extra_texts: Vec<String>,
+    /// feature selections naming the font's own feature tags
+    pub extra_feats: Vec<FeatSel>,
+    /// where the layout tables can be made non-canonical / faulted (bare sfnt fonts only)
+    pub sites: Sites,
+    /// non-canonical or faulted layout data: a panic is property C02's business, the case is
+    /// skipped and counted
+    pub tolerant: bool,
+}
+
+/// One font object under test: the entry's pools with possibly mutated bytes.
+pub struct Target<'a> {
+    pub e: &'a FontEntry,
+    pub bytes: &'a [u8],
+    pub label: String,
+    pub tolerant: bool,
 }
 
 fn tag_str(t: u32) -> String {
@@ -130,6 +149,33 @@ fn tuple_pool(bytes: &[u8], user: Option<&[i32]>) -> (Vec<OwnedTuple>, Vec<Strin
     (out, labels)
 }
 
+/// normalise the given user-space tuples (raw 16.16 per axis) with the font's fvar / avar
+fn tuple_pool_users(bytes: &[u8], users: &[Vec<i32>]) -> (Vec<OwnedTuple>, Vec<String>) {
+    let mut out = Vec::new();
+    let mut labels = Vec::new();
+    let fd = match ReadScope::new(bytes).read::<FontData<'_>>() {
+        Ok(f) => f,
+        Err(_) => return (out, labels),
+    };
+    let prov = match fd.table_provider(0) {
+        Ok(p) => p,
+        Err(_) => return (out, labels),
+    };
+    let fvar_data = match prov.table_data(tag::FVAR) {
+        Ok(Some(d)) => d,
+        _ => return (out, labels),
+    };
+    if let Ok(fvar) = ReadScope::new(&fvar_data).read::<FvarTable<'_>>() {
+        for u in users {
+            if let Ok(t) = fvar.normalize(u.iter().map(|v| Fixed::from_raw(*v)), None) {
+                labels.push(format!("{:?}", t.iter().map(|x| x.raw_value()).collect::<Vec<i16>>()));
+                out.push(t);
+            }
+        }
+    }
+    (out, labels)
+}
+
 fn make_entry(name: &str, bytes: Vec<u8>, home: &[u32], weight: u32, kind: &'static str, fv: Option<FvFont>) -> Option<FontEntry> {
     let (num_glyphs, has_fv, langs) = {
         let mut font = load(&bytes, 0).ok()?;
@@ -164,6 +210,7 @@ fn make_entry(name: &str, bytes: Vec<u8>, home: &[u32], weight: u32, kind: &'sta
         }
         (font.num_glyphs(), has_fv, langs)
     };
+    let sites = layout_sites(&bytes);
     let user: Option<Vec<i32>> = fv.as_ref().map(|_| [400, 100, 900, 250, 650, 325, 525, 475].iter().map(|v: &i32| v << 16).collect());
     let (tuples, tuple_labels) = tuple_pool(&bytes, user.as_deref());
     Some(FontEntry {
@@ -186,7 +233,34 @@ fn make_entry(name: &str, bytes: Vec<u8>, home: &[u32], weight: u32, kind: &'sta
         fv,
         weight,
         kind,
+        alphabet: Vec::new(),
+        extra_texts: Vec::new(),
+        extra_feats: Vec::new(),
+        sites,
+        tolerant: false,
     })
+}
+
+const NC_FONTS: u64 = 24;
+
+/// feature selections over a font's own feature tags: everything as a custom list, everything
+/// as a mask, and two halves as custom lists
+fn own_feature_selections(tags: &[[u8; 4]]) -> Vec<FeatSel> {
+    let mut t: Vec<u32> = tags.iter().map(|x| u32::from_be_bytes(*x)).collect();
+    t.sort();
+    t.dedup();
+    if t.is_empty() {
+        return Vec::new();
+    }
+    let mask = t.iter().fold(FeatureMask::empty(), |m, x| m | FeatureMask::from_tag(*x));
+    let all: Vec<(u32, Option<usize>)> = t.iter().map(|x| (*x, None)).collect();
+    let mut out = vec![FeatSel::Custom(all.clone()), FeatSel::Mask((FeatureMask::default() | mask).bits())];
+    if t.len() >= 2 {
+        out.push(FeatSel::Custom(all[..t.len() / 2].to_vec()));
+        out.push(FeatSel::Custom(all[t.len() / 2..].iter().rev().cloned().collect()));
+        out.push(FeatSel::Custom(vec![(t[0], Some(1)), (t[t.len() - 1], None)]));
+    }
+    out
 }
 
 pub fn fonts() -> &'static Vec<FontEntry> {
@@ -197,6 +271,19 @@ pub fn fonts() -> &'static Vec<FontEntry> {
             let m = FvFont::new(variant);
             let bytes = m.build();
             if let Some(e) = make_entry(&format!("generated:fv-font-{}", variant), bytes, &[tag::LATN, tag::CYRL, tag::DFLT, tag::THAI], 6, "fv-generated", Some(m)) {
+                v.push(e);
+            }
+        }
+        // fonts with non-canonical but accepted layout encodings (no model: metamorphic only)
+        for seed in 0..NC_FONTS {
+            let nc = fv_font::NcFont::new(seed);
+            let mut tags = nc.gsub_feature_tags.clone();
+            tags.extend(nc.gpos_feature_tags.iter().cloned());
+            if let Some(mut e) = make_entry(&format!("generated:noncanonical-{}", seed), nc.bytes, &[tag::LATN, tag::CYRL, tag::DFLT], 2, "noncanonical-generated", None) {
+                e.alphabet = fv_font::nc_alphabet();
+                e.other_scripts = vec![tag::LATN, tag::CYRL, tag::DFLT, tag::GREK, tag::THAI, tag::ARAB];
+                e.extra_feats = own_feature_selections(&tags);
+                e.tolerant = true;
                 v.push(e);
             }
         }
@@ -410,6 +497,8 @@ pub struct Case {
     pub history: Vec<OpSpec>,
     pub probe: OpSpec,
     pub sample: u32,
+    /// make the layout tables non-canonical / faulted before loading (bare sfnt fonts)
+    pub mutation: Option<Mutation>,
 }
 
 fn pres(required: bool) -> MatchingPresentation {
@@ -446,8 +535,23 @@ fn resolve_shape(e: &FontEntry, s: &OpSpec) -> ShapeArgs {
     let script = if s.flags & 0b11 != 0 { e.home_scripts[pick(e.home_scripts.len(), s.r[0])] } else { e.other_scripts[pick(e.other_scripts.len(), s.r[0])] };
     // text: 75 % from the pool of that script, else from the pool of a home script
     let pool = if s.flags & 0b1100 != 0 { texts_for(script) } else { texts_for(e.home_scripts[0]) };
-    let text = pool[pick(pool.len(), s.r[1])].to_string();
-    let feats = feature_pool();
+    let text = if !e.alphabet.is_empty() && s.r[1] % 16 != 0 {
+        if !e.extra_texts.is_empty() && s.r[1] % 4 == 1 {
+            e.extra_texts[pick(e.extra_texts.len(), s.r[1])].clone()
+        } else {
+            synth_text(&e.alphabet, s.r[1])
+        }
+    } else {
+        pool[pick(pool.len(), s.r[1])].to_string()
+    };
+    let mut feats = feature_pool();
+    // the font's own feature tags first (twice: they are the productive ones)
+    if !e.extra_feats.is_empty() {
+        let mut v = e.extra_feats.clone();
+        v.extend(e.extra_feats.iter().cloned());
+        v.extend(feats);
+        feats = v;
+    }
     ShapeArgs {
         text,
         script,
@@ -457,6 +561,16 @@ fn resolve_shape(e: &FontEntry, s: &OpSpec) -> ShapeArgs {
         tuple: pick(e.tuples.len() + 1, s.r[4]),
         kerning: s.flags & 0b100_0000 == 0,
     }
+}
+
+/// A text over a few letters of the font's own alphabet, alternating between them: glyphs
+/// served by different ranges / subtables follow each other, which exposes per-object cursors.
+fn synth_text(alphabet: &[char], r: u32) -> String {
+    let mut rng = fv_font::NcRng(r as u64 ^ 0x7e57);
+    let k = 2 + rng.below(3);
+    let letters: Vec<char> = (0..k).map(|_| alphabet[rng.below(alphabet.len())]).collect();
+    let len = 1 + rng.below(10);
+    (0..len).map(|_| letters[rng.below(letters.len())]).collect()
 }
 
 fn resolve(e: &FontEntry, s: &OpSpec, probe: &OpSpec) -> Op {
@@ -701,11 +815,12 @@ fn regime_of(e: &FontEntry, tuple: usize) -> Option<Regime> {
 /// defects are attributed by a defect model (a fresh font on which only the state the defect
 /// is about has been reproduced answers exactly like the used font); anything else gets the
 /// generic signature of the probe's kind.
-fn triage(e: &FontEntry, filter: u8, prefix: &[Op], op: &Op, got: &str, exp: &str, what: &str) -> Fail {
+fn triage(t: &Target<'_>, filter: u8, prefix: &[Op], op: &Op, got: &str, exp: &str, what: &str) -> Fail {
+    let e = t.e;
     let hist: Vec<String> = prefix.iter().map(|o| show_op(e, o)).collect();
     let detail = format!(
         "font {} (image filter {}): {} — after history [{}] the call {} returned\n  used : {}\n  fresh: {}",
-        e.name,
+        t.label,
         filter,
         what,
         hist.join("; "),
@@ -720,7 +835,7 @@ fn triage(e: &FontEntry, filter: u8, prefix: &[Op], op: &Op, got: &str, exp: &st
         _ => false,
     };
     if dc_possible {
-        if let Ok(mut model) = load(&e.bytes, filter) {
+        if let Ok(mut model) = load(t.bytes, filter) {
             for h in prefix {
                 replay_mapping(&mut model, h);
             }
@@ -739,7 +854,7 @@ fn triage(e: &FontEntry, filter: u8, prefix: &[Op], op: &Op, got: &str, exp: &st
                     // mask), so only a call with the same script and language but another tuple
                     // can leave a stale list behind for this probe
                     if b.tuple != a.tuple && b.script == a.script && b.lang == a.lang && matches!(b.feat, FeatSel::Mask(_)) {
-                        if let Ok(mut model) = load(&e.bytes, filter) {
+                        if let Ok(mut model) = load(t.bytes, filter) {
                             run(&mut model, e, h);
                             if run(&mut model, e, op) == got {
                                 return Fail::new(
@@ -757,39 +872,74 @@ fn triage(e: &FontEntry, filter: u8, prefix: &[Op], op: &Op, got: &str, exp: &st
 }
 
 /// The check proper, on resolved ops.
-fn check_history(e: &FontEntry, filter: u8, history: &[Op], probe: &Op, sampled: Option<usize>, rec: &mut Rec) -> CaseResult {
-    let harness = |m: String| Fail::new("C03:harness-font-load", format!("{}: {}", e.name, m));
+/// triage runs the defect models, which execute more ops: guard them like the ops themselves
+fn triage_guarded(t: &Target<'_>, filter: u8, prefix: &[Op], op: &Op, got: &str, exp: &str, what: &str) -> Fail {
+    if t.tolerant {
+        match std::panic::catch_unwind(std::panic::AssertUnwindSafe(|| triage(t, filter, prefix, op, got, exp, what))) {
+            Ok(f) => f,
+            Err(_) => Fail::new(format!("C03:{}-differs-from-fresh-font", kind_name(op)), format!("font {}: {} ({}); used: {} fresh: {}", t.label, what, show_op(t.e, op), truncate(got, 800), truncate(exp, 800))),
+        }
+    } else {
+        triage(t, filter, prefix, op, got, exp, what)
+    }
+}
+
+/// `run` for fonts with non-canonical / faulted layout data: None if allsorts panicked.
+fn run_tolerant(font: &mut F<'_>, e: &FontEntry, op: &Op, tolerant: bool) -> Option<String> {
+    if tolerant {
+        std::panic::catch_unwind(std::panic::AssertUnwindSafe(|| run(font, e, op))).ok()
+    } else {
+        Some(run(font, e, op))
+    }
+}
+
+fn check_history(t: &Target<'_>, filter: u8, history: &[Op], probe: &Op, sampled: Option<usize>, rec: &mut Rec) -> CaseResult {
+    let e = t.e;
+    let harness = |m: String| Fail::new("C03:harness-font-load", format!("{}: {}", t.label, m));
+    // a panic on non-canonical / faulted data is property C02's business: skip and count
+    macro_rules! run_or_skip {
+        ($font:expr, $op:expr) => {
+            match run_tolerant($font, e, $op, t.tolerant) {
+                Some(s) => s,
+                None => {
+                    rec.class("skipped:panic-on-noncanonical-or-faulted-font");
+                    rec.class(&format!("font:{}", e.kind));
+                    return Ok(());
+                }
+            }
+        };
+    }
     // stored in the replay file if the case fails (also when it fails by a panic)
     rec.artefact(
         "ops",
-        format!("font {} filter {}\n{}\nprobe: {}", e.name, filter, history.iter().map(|o| show_op(e, o)).collect::<Vec<_>>().join("\n"), show_op(e, probe)).as_bytes(),
+        format!("font {} filter {}\n{}\nprobe: {}", t.label, filter, history.iter().map(|o| show_op(e, o)).collect::<Vec<_>>().join("\n"), show_op(e, probe)).as_bytes(),
     );
-    let mut used = load(&e.bytes, filter).map_err(harness)?;
+    let mut used = load(t.bytes, filter).map_err(harness)?;
     let mut evals = 0u64;
     for (i, op) in history.iter().enumerate() {
-        let got = run(&mut used, e, op);
+        let got = run_or_skip!(&mut used, op);
         if sampled == Some(i) {
-            let mut fresh = load(&e.bytes, filter).map_err(harness)?;
-            let exp = run(&mut fresh, e, op);
+            let mut fresh = load(t.bytes, filter).map_err(harness)?;
+            let exp = run_or_skip!(&mut fresh, op);
             evals += 1;
             if got != exp {
-                return Err(triage(e, filter, &history[..i], op, &got, &exp, "history op differs from the same op on a fresh font"));
+                return Err(triage_guarded(t, filter, &history[..i], op, &got, &exp, "history op differs from the same op on a fresh font"));
             }
         }
     }
-    let got = run(&mut used, e, probe);
-    let mut fresh = load(&e.bytes, filter).map_err(harness)?;
-    let exp = run(&mut fresh, e, probe);
+    let got = run_or_skip!(&mut used, probe);
+    let mut fresh = load(t.bytes, filter).map_err(harness)?;
+    let exp = run_or_skip!(&mut fresh, probe);
     if got != exp {
-        return Err(triage(e, filter, history, probe, &got, &exp, "probe differs from the same probe on a fresh font"));
+        return Err(triage_guarded(t, filter, history, probe, &got, &exp, "probe differs from the same probe on a fresh font"));
     }
     // the probe itself is part of the history of a second, identical probe
-    let again = run(&mut used, e, probe);
+    let again = run_or_skip!(&mut used, probe);
     evals += 1;
     if again != got {
         let mut h: Vec<Op> = history.to_vec();
         h.push(probe.clone());
-        return Err(triage(e, filter, &h, probe, &again, &exp, "repeating the probe on the same font changed its result"));
+        return Err(triage_guarded(t, filter, &h, probe, &again, &exp, "repeating the probe on the same font changed its result"));
     }
     rec.evaluations(evals);
 
@@ -882,7 +1032,7 @@ fn check_history(e: &FontEntry, filter: u8, history: &[Op], probe: &Op, sampled:
     rec.sample(|| {
         format!(
             "{}: [{}] then {}",
-            e.name,
+            t.label,
             history.iter().map(|o| show_op(e, o)).collect::<Vec<_>>().join("; "),
             show_op(e, probe)
         )
@@ -897,10 +1047,226 @@ pub fn check_case(case: &Case, rec: &mut Rec) -> CaseResult {
     }
     let weights: Vec<u32> = pool.iter().map(|f| f.weight).collect();
     let e = &pool[pick_weighted(case.font, &weights)];
+    check_on_entry(e, case, rec)
+}
+
+/// Resolve the case against the entry's pools, apply the layout mutation (if any) and check.
+fn check_on_entry(e: &FontEntry, case: &Case, rec: &mut Rec) -> CaseResult {
     let probe = resolve(e, &case.probe, &case.probe);
     let history: Vec<Op> = case.history.iter().map(|s| resolve(e, s, &case.probe)).collect();
     let sampled = if history.is_empty() { None } else { Some(pick(history.len(), case.sample)) };
-    check_history(e, case.filter, &history, &probe, sampled, rec)
+    let mutated: Option<(Vec<u8>, Vec<String>)> = match &case.mutation {
+        Some(m) if !e.sites.tables.is_empty() => Some(mutate(&e.bytes, &e.sites, m)),
+        _ => None,
+    };
+    match &mutated {
+        Some((bytes, what)) if !what.is_empty() => {
+            rec.artefact("font", bytes);
+            let t = Target { e, bytes, label: format!("{} with [{}]", e.name, what.join("; ")), tolerant: true };
+            rec.class(match case.mutation.as_ref().map(|m| m.mode) {
+                Some(1) => "mutated:non-canonical-order",
+                Some(2) => "mutated:byte-faults",
+                _ => "mutated:non-canonical+faults",
+            });
+            check_history(&t, case.filter, &history, &probe, sampled, rec)
+        }
+        _ => {
+            let t = Target { e, bytes: &e.bytes, label: e.name.clone(), tolerant: e.tolerant };
+            check_history(&t, case.filter, &history, &probe, sampled, rec)
+        }
+    }
+}
+
+// ------------------------------------------------------------------ layout mutations
+
+/// What to do to the layout tables of a bare sfnt font before *both* fonts are loaded from it.
+#[derive(Clone, Debug)]
+pub struct Mutation {
+    pub seed: u32,
+    /// 1: permute / overlap / duplicate Coverage and ClassDef records (non-canonical but
+    /// accepted), 2: 1-3 byte faults in GSUB/GPOS/GDEF/kern bodies, 3: both
+    pub mode: u8,
+}
+
+#[derive(Clone, Debug, Default)]
+pub struct TableSites {
+    pub tag: [u8; 4],
+    pub offset: usize,
+    pub length: usize,
+    /// offsets (inside the table) of Coverage tables
+    pub coverages: Vec<u32>,
+    /// offsets of ClassDef tables
+    pub classdefs: Vec<u32>,
+    /// offsets of structural fields (counts, offsets, formats, classes, indices)
+    pub fields: Vec<u32>,
+}
+
+#[derive(Clone, Debug, Default)]
+pub struct Sites {
+    pub tables: Vec<TableSites>,
+}
+
+/// Locate the layout tables of a bare sfnt and, with C02's forgiving scanner, the Coverage /
+/// ClassDef tables and structural fields inside GSUB and GPOS.
+fn layout_sites(bytes: &[u8]) -> Sites {
+    let mut out = Sites::default();
+    let dir = match crate::fontgen::sfnt::parse_directory(bytes) {
+        Some((flavour, d)) if flavour == crate::fontgen::sfnt::TTF || flavour == crate::fontgen::sfnt::OTTO || flavour == crate::fontgen::sfnt::TRUE => d,
+        _ => return out,
+    };
+    for ent in dir {
+        if ![*b"GSUB", *b"GPOS", *b"GDEF", *b"kern"].contains(&ent.tag) {
+            continue;
+        }
+        let (o, l) = (ent.offset as usize, ent.length as usize);
+        let t = match bytes.get(o..o.saturating_add(l)) {
+            Some(t) if l >= 4 => t,
+            _ => continue,
+        };
+        let mut ts = TableSites { tag: ent.tag, offset: o, length: l, ..Default::default() };
+        if &ent.tag == b"GSUB" || &ent.tag == b"GPOS" {
+            let scan = crate::props::c02::layout::scan(t, &ent.tag == b"GPOS");
+            for a in &scan.anchors {
+                match a.what {
+                    "coverage.format" => ts.coverages.push(a.off),
+                    "classdef.format" => ts.classdefs.push(a.off),
+                    _ => {}
+                }
+                if ts.fields.len() < 3000 {
+                    ts.fields.push(a.off);
+                }
+            }
+            ts.coverages.sort();
+            ts.coverages.dedup();
+            ts.classdefs.sort();
+            ts.classdefs.dedup();
+        }
+        out.tables.push(ts);
+    }
+    out
+}
+
+fn rd16(t: &[u8], o: usize) -> Option<usize> {
+    t.get(o..o.checked_add(2)?).map(|b| u16::from_be_bytes([b[0], b[1]]) as usize)
+}
+
+/// Rearrange the records of one Coverage / ClassDef table in place (same size, still accepted).
+fn decanonicalise(t: &mut [u8], at: usize, classdef: bool, rng: &mut fv_font::NcRng) -> Option<String> {
+    let fmt = rd16(t, at)?;
+    let (first, rec, n) = match (classdef, fmt) {
+        (false, 1) => (at + 4, 2usize, rd16(t, at + 2)?),
+        (false, 2) => (at + 4, 6, rd16(t, at + 2)?),
+        (true, 2) => (at + 4, 6, rd16(t, at + 2)?),
+        (true, 1) => (at + 6, 2, rd16(t, at + 4)?),
+        _ => return None,
+    };
+    if n < 2 || first + rec * n > t.len() {
+        return None;
+    }
+    let what = if classdef { "ClassDef" } else { "Coverage" };
+    let swap = |t: &mut [u8], i: usize, j: usize| {
+        for k in 0..rec {
+            t.swap(first + rec * i + k, first + rec * j + k);
+        }
+    };
+    let (i, j) = {
+        let i = rng.below(n - 1);
+        (i, i + 1 + rng.below(n - 1 - i))
+    };
+    let op = rng.below(if rec == 6 { 5 } else { 3 });
+    match op {
+        0 => {
+            for k in 0..n / 2 {
+                swap(t, k, n - 1 - k);
+            }
+            Some(format!("{} format {} at {}: {} records reversed", what, fmt, at, n))
+        }
+        1 => {
+            swap(t, i, j);
+            Some(format!("{} format {} at {}: records {} and {} swapped", what, fmt, at, i, j))
+        }
+        2 => {
+            // duplicate: record j := record i
+            for k in 0..rec {
+                t[first + rec * j + k] = t[first + rec * i + k];
+            }
+            Some(format!("{} format {} at {}: record {} duplicated over record {}", what, fmt, at, i, j))
+        }
+        3 => {
+            // overlap: the later range starts where the earlier one starts
+            t[first + rec * j] = t[first + rec * i];
+            t[first + rec * j + 1] = t[first + rec * i + 1];
+            Some(format!("{} format 2 at {}: range {} now starts at the start of range {}", what, at, j, i))
+        }
+        _ => {
+            // overlap the other way: the earlier range ends where the later one ends; then swap
+            t[first + rec * i + 2] = t[first + rec * j + 2];
+            t[first + rec * i + 3] = t[first + rec * j + 3];
+            swap(t, i, j);
+            Some(format!("{} format 2 at {}: range {} extended to the end of range {} and listed after it", what, at, i, j))
+        }
+    }
+}
+
+fn mutate(bytes: &[u8], sites: &Sites, m: &Mutation) -> (Vec<u8>, Vec<String>) {
+    let mut out = bytes.to_vec();
+    let mut what = Vec::new();
+    let mut rng = fv_font::NcRng(m.seed as u64 ^ 0xdeca);
+    if m.mode & 1 == 1 {
+        let candidates: Vec<(usize, bool, u32)> = sites
+            .tables
+            .iter()
+            .enumerate()
+            .flat_map(|(ti, ts)| ts.coverages.iter().map(move |o| (ti, false, *o)).chain(ts.classdefs.iter().map(move |o| (ti, true, *o))))
+            .collect();
+        if !candidates.is_empty() {
+            let k = 1 + rng.below(4);
+            for _ in 0..k * 3 {
+                if what.len() >= k {
+                    break;
+                }
+                let (ti, cd, at) = candidates[rng.below(candidates.len())];
+                let ts = &sites.tables[ti];
+                if let Some(t) = out.get_mut(ts.offset..ts.offset + ts.length) {
+                    if let Some(d) = decanonicalise(t, at as usize, cd, &mut rng) {
+                        what.push(format!("{} {}", String::from_utf8_lossy(&ts.tag), d));
+                    }
+                }
+            }
+        }
+    }
+    if m.mode & 2 == 2 && !sites.tables.is_empty() {
+        let k = 1 + rng.below(3);
+        for _ in 0..k {
+            let ts = &sites.tables[rng.below(sites.tables.len())];
+            if ts.length < 4 {
+                continue;
+            }
+            // a structural field, the first bytes of the table, or anywhere
+            let pos = match rng.below(4) {
+                0 | 1 if !ts.fields.is_empty() => ts.fields[rng.below(ts.fields.len())] as usize + rng.below(2),
+                2 => rng.below(ts.length.min(64)),
+                _ => rng.below(ts.length),
+            };
+            if pos >= ts.length {
+                continue;
+            }
+            let p = ts.offset + pos;
+            let old = out[p];
+            let new = match rng.below(5) {
+                0 => 0,
+                1 => 0xFF,
+                2 => old.wrapping_add(1),
+                3 => old.wrapping_sub(1),
+                _ => old ^ (1 << rng.below(8)),
+            };
+            if new != old {
+                out[p] = new;
+                what.push(format!("{}[{}] {:#04x} -> {:#04x}", String::from_utf8_lossy(&ts.tag), pos, old, new));
+            }
+        }
+    }
+    (out, what)
 }
 
 fn kind_strategy() -> impl Strategy<Value = u8> {
@@ -932,6 +1298,15 @@ fn op_strategy(allow_same: bool) -> impl Strategy<Value = OpSpec> {
     (kind, proptest::array::uniform7(any::<u32>()), any::<u8>(), copy).prop_map(|(kind, r, flags, copy)| OpSpec { kind, r, flags, copy })
 }
 
+fn mutation_strategy() -> impl Strategy<Value = Option<Mutation>> {
+    prop_oneof![
+        13 => Just(None),
+        4 => any::<u32>().prop_map(|seed| Some(Mutation { seed, mode: 1 })),
+        2 => any::<u32>().prop_map(|seed| Some(Mutation { seed, mode: 2 })),
+        1 => any::<u32>().prop_map(|seed| Some(Mutation { seed, mode: 3 })),
+    ]
+}
+
 pub fn case_strategy() -> impl Strategy<Value = Case> {
     (
         any::<u32>(),
@@ -939,8 +1314,150 @@ pub fn case_strategy() -> impl Strategy<Value = Case> {
         proptest::collection::vec(op_strategy(true), 0..13),
         op_strategy(false),
         any::<u32>(),
+        mutation_strategy(),
     )
-        .prop_map(|(font, filter, history, probe, sample)| Case { font, filter, history, probe, sample })
+        .prop_map(|(font, filter, history, probe, sample, mutation)| Case { font, filter, history, probe, sample, mutation })
+}
+
+// ------------------------------------------------------------------ fonts generated per case
+
+/// A font built per case from a C04 GSUB program and/or a C05 GPOS tape (the code path of
+/// C02's `generated-layout` class, reduced to the default script), then a history as usual.
+#[derive(Clone, Debug)]
+pub struct GenCase {
+    pub gsub: Option<Box<crate::props::c04::Case>>,
+    pub tape: Option<Vec<u32>>,
+    pub gdef_from_gpos: bool,
+    pub case: Case,
+}
+
+fn build_generated(g: &GenCase) -> Option<FontEntry> {
+    use crate::fontgen::{otl, otl_gpos};
+    use crate::props::{c04, c05};
+    let p4 = g.gsub.as_ref().map(|c| c04::resolve(c));
+    let p5 = g.tape.as_ref().map(|t| c05::build_program(t));
+    let n = p4.as_ref().map(|p| p.n).unwrap_or(0).max(p5.as_ref().map(|p| p.nglyphs.saturating_sub(1)).unwrap_or(0)).clamp(4, 200);
+    let mut f = BasicFont::with_glyphs(n + 1);
+    for gid in 1..=n {
+        f.cmap.insert(0xE000 + gid as u32, gid);
+    }
+    if let Some(p) = &p5 {
+        for gid in 0..=n as usize {
+            if let (Some(a), Some(m)) = (p.advances.get(gid), f.metrics.get_mut(gid)) {
+                *m = (*a, 0);
+            }
+        }
+    }
+    let mut tags: Vec<[u8; 4]> = Vec::new();
+    let mut strings: Vec<Vec<u16>> = Vec::new();
+    let mut request_tuples: Vec<Vec<i16>> = Vec::new();
+    let mut feats: Vec<FeatSel> = Vec::new();
+    let mut have_gdef = false;
+    let mut axes = 0usize;
+    if let Some(p) = &p4 {
+        if let Ok(bytes) = otl::gsub_table(&p.gsub) {
+            f.extra.push((*b"GSUB", bytes));
+            axes = p.gsub.feature_variations.as_ref().map(|v| v.axis_count as usize).unwrap_or(0);
+            if axes > 0 {
+                let models: Vec<crate::fontgen::var::AxisModel> = (0..axes)
+                    .map(|i| crate::fontgen::var::AxisModel { tag: [b'a', b'x', b'0', b'0' + (i % 10) as u8], min: -65536, default: 0, max: 65536, flags: 0, name_id: 256 + i as u16 })
+                    .collect();
+                f.extra.push((*b"fvar", crate::fontgen::var::fvar_table(&models, &[], 0)));
+            }
+        }
+        for ft in &p.gsub.features {
+            tags.push(ft.tag);
+        }
+        for r in &p.requests {
+            if let Some(t) = &r.tuple {
+                request_tuples.push(t.clone());
+            }
+            if !r.features.is_empty() {
+                feats.push(FeatSel::Custom(r.features.iter().map(|t| (u32::from_be_bytes(*t), r.alternate)).collect()));
+            }
+        }
+        strings.extend(p.strings.iter().cloned());
+        if let (Some(gd), false) = (&p.gdef, g.gdef_from_gpos && p5.as_ref().map(|q| q.gdef.is_some()).unwrap_or(false)) {
+            f.extra.push((*b"GDEF", otl::gdef_table(gd)));
+            have_gdef = true;
+        }
+    }
+    if let Some(p) = &p5 {
+        if let Some(gp) = &p.gpos {
+            if let Ok(bytes) = otl_gpos::encode_gpos(gp) {
+                f.extra.push((*b"GPOS", bytes));
+            }
+            for ft in &gp.features {
+                tags.push(ft.tag);
+            }
+        }
+        if let Some(k) = &p.kern {
+            f.extra.push((*b"kern", otl_gpos::encode_kern(k).0));
+        }
+        if !have_gdef {
+            if let Some(gd) = &p.gdef {
+                if let Ok(bytes) = otl_gpos::encode_gdef(gd) {
+                    f.extra.push((*b"GDEF", bytes));
+                }
+            }
+        }
+        if !p.custom.is_empty() {
+            feats.push(FeatSel::Custom(p.custom.iter().map(|t| (u32::from_be_bytes(*t), None)).collect()));
+        }
+        for s in &p.strings {
+            strings.push(s.iter().map(|x| x.gid).collect());
+        }
+    }
+    let name = format!("generated-layout/{}{}", if p4.is_some() { "c04" } else { "" }, if p5.is_some() { "+c05" } else { "" });
+    let bytes = f.build();
+    // tuples asked for by the program's own requests (normalised coordinates; the axes run
+    // from -1 to 1, so user value = normalised value)
+    let extra_tuples: Vec<Vec<i32>> = request_tuples.iter().filter(|t| t.len() == axes && axes > 0).take(4).map(|t| t.iter().map(|x| *x as i32 * 4).collect()).collect();
+    let mut e = make_entry(&name, bytes, &[tag::LATN, tag::DFLT], 1, "generated-layout", None)?;
+    if !extra_tuples.is_empty() {
+        let (mut t, mut l) = tuple_pool_users(&e.bytes, &extra_tuples);
+        e.tuples.append(&mut t);
+        e.tuple_labels.append(&mut l);
+    }
+    e.alphabet = (1..=n).filter_map(|gid| char::from_u32(0xE000 + gid as u32)).collect();
+    e.extra_texts = strings.iter().filter(|s| !s.is_empty()).take(16).map(|s| s.iter().filter_map(|gid| char::from_u32(0xE000 + *gid as u32)).take(32).collect()).collect();
+    let mut own = own_feature_selections(&tags);
+    own.extend(feats.into_iter().take(6));
+    e.extra_feats = own;
+    e.other_scripts = vec![tag::LATN, tag::DFLT, tag::CYRL, tag::GREK];
+    e.tolerant = true;
+    Some(e)
+}
+
+fn check_generated(g: &GenCase, rec: &mut Rec) -> CaseResult {
+    let e = match build_generated(g) {
+        Some(e) => e,
+        None => {
+            rec.class("generated-layout:not-loadable");
+            return Ok(());
+        }
+    };
+    rec.class(match (g.gsub.is_some(), g.tape.is_some()) {
+        (true, true) => "generated-layout:gsub+gpos",
+        (true, false) => "generated-layout:gsub",
+        _ => "generated-layout:gpos",
+    });
+    check_on_entry(&e, &g.case, rec)
+}
+
+fn gen_strategy() -> impl Strategy<Value = GenCase> {
+    let tape = || proptest::collection::vec(any::<u32>(), 900..=900);
+    let programs = prop_oneof![
+        35 => crate::props::c04::case_strategy().prop_map(|c| (Some(Box::new(c)), None)),
+        25 => tape().prop_map(|t| (None, Some(t))),
+        40 => (crate::props::c04::case_strategy(), tape()).prop_map(|(c, t)| (Some(Box::new(c)), Some(t))),
+    ];
+    (programs, any::<bool>(), case_strategy(), prop_oneof![1 => Just(None), 1 => any::<u32>().prop_map(|seed| Some(Mutation { seed, mode: 1 })), 1 => mutation_strategy()]).prop_map(
+        |((gsub, tape), gdef_from_gpos, mut case, mutation)| {
+            case.mutation = mutation;
+            GenCase { gsub, tape, gdef_from_gpos, case }
+        },
+    )
 }
 
 // ------------------------------------------------------------------ pinned histories
@@ -975,7 +1492,7 @@ fn pinned(i: u64, rec: &mut Rec) -> CaseResult {
             (e, vec![shape("office", tag::LATN, 0, d.clone())], dc(true, 1))
         }
     };
-    check_history(e, 0, &history, &probe, Some(0), rec)?;
+    check_history(&Target { e, bytes: &e.bytes, label: e.name.clone(), tolerant: false }, 0, &history, &probe, Some(0), rec)?;
     rec.nontrivial();
     rec.hash_u64(i);
     Ok(())
@@ -1328,7 +1845,8 @@ impl Property for C03 {
     }
     fn rule(&self) -> String {
         "Section `histories`: proptest generates a font (fixtures: Latin CFF/TrueType with kern, Arabic, Devanagari, Khmer, Myanmar, Thai, five variable fonts, sbix/SVG/EBDT/WOFF/WOFF2, symbol cmap, a generated font whose optional tables are all unreadable; plus six variants of a generated variable font whose GSUB and GPOS carry FeatureVariations), an image-filter configuration, a history of 0-12 queries and one probe query; \
-         all arguments (text, script, language, feature mask / custom feature list, variation tuple, kerning, presentation, selector, glyph ids, ppem, bit depth) come from small pools so that cache keys collide on some components and differ on others; 55 % of the history ops are of the probe's kind. \
+         24 seeded fonts with non-canonical but accepted layout encodings (Coverage 1 unsorted / duplicates, Coverage 2 and ClassDef 2 out of order / overlapping / adjacent / duplicated, several subtables per lookup covering the same glyph, lookups in several features, equal feature tags, duplicate LangSys indices, unsorted PairSets; texts alternate between 2-4 letters); for 35 % of the cases on bare sfnt fonts the layout tables are mutated before BOTH fonts are loaded (Coverage / ClassDef records permuted, duplicated, overlapped in place; and/or 1-3 byte faults in GSUB/GPOS/GDEF/kern); on non-canonical, mutated or per-case generated fonts a panic is C02's business (case skipped, class `skipped:...`). Section `generated-layout`: the font is built per case from a C04 GSUB program and/or a C05 GPOS tape (texts from its glyph universe and witness strings, features from its own tags), optionally mutated the same way. \
+         All arguments (text, script, language, feature mask / custom feature list, variation tuple, kerning, presentation, selector, glyph ids, ppem, bit depth) come from small pools so that cache keys collide on some components and differ on others; 55 % of the history ops are of the probe's kind. \
          The canonical rendering (Debug of glyphs/infos/positions/errors, bytes of images and OS/2) of the probe on the used font must equal the probe on a Font freshly loaded from the same bytes; one sampled history op is compared with its own fresh font, and the probe is repeated on the used font. \
          Non-trivial = the history contains at least one op of the probe's kind family (shape/positions; map_glyphs or shaping; lookup or mapping or shaping; advances; names; images) whose arguments differ from the probe's (argument-less queries: any earlier call). Classes record which argument differs; `tuple-differs-with-feature-variations` = shaping probe on a font with FeatureVariations after shaping with a tuple that selects another feature-variation record. \
          Section `pure-twice`: subset / whole_font / prince::subset / instance / container decoding (sfnt, WOFF, WOFF2) are run twice from fresh providers with unrelated work in between and twice on one provider; outputs must be byte-identical (table tags compared as sorted sets); non-trivial = the operation succeeded with non-empty output. \
@@ -1344,8 +1862,10 @@ impl Property for C03 {
         ]
     }
     fn run(&self, ctx: &mut Ctx) {
-        let n = ctx.cases(100_000, 10_000_000);
+        let n = ctx.cases(60_000, 10_000_000);
         ctx.section("histories", n, case_strategy(), |c, rec| check_case(c, rec));
+        let n = ctx.cases(5_000, 600_000);
+        ctx.section("generated-layout", n, gen_strategy(), |c, rec| check_generated(c, rec));
         let n = ctx.cases(6_000, 400_000);
         ctx.section(
             "pure-twice",
